@@ -541,6 +541,15 @@ def gen_hashsites():
     summary = {"sites": len(rows), "per_class": counts, "theorems": theorems + THEOREMS_OF_CLASS["sorted"], "leaks": leaks,
                "hash_fields": sorted(fields), "fns_returning_hash": sorted(hash_fns), "statics": statics,
                "inventory": [f"{r['file']}|{r['fn']}|{r['key']}|{r['cls']}" for r in rows]}
+    # the inventory as JSON next to the Lean table (same content, for readers and for other tools)
+    os.makedirs(gen.GEN_DIR, exist_ok=True)
+    inv = {"generated_by": "tools/gen_hashsites.py", "per_class": counts, "log_shapes": flags, "statics": statics,
+           "sites": [{k: r[k] for k in ("file", "fn", "key", "cls", "note")} for r in rows]}
+    text = json.dumps(inv, indent=1, ensure_ascii=False) + "\n"
+    jp = os.path.join(gen.GEN_DIR, "HashSites.json")
+    if not os.path.exists(jp) or open(jp, encoding="utf-8").read() != text:
+        with open(jp, "w", encoding="utf-8") as f:
+            f.write(text)
     return "\n".join(L), summary
 
 
